@@ -9,6 +9,7 @@ from ..protocol.messages.json_rpc_message import (
 )
 from ..protocol.types.info import ServerInfo
 from ..protocol.types.capabilities import ServerCapabilities
+from ..protocol.types.versioning import SUPPORTED_VERSIONS, CURRENT_VERSION
 from .session.memory import SessionManager
 
 
@@ -95,6 +96,9 @@ class ProtocolHandler:
         params = getattr(message, "params", None) or {}
         client_info = params.get("clientInfo", {})
         protocol_version = params.get("protocolVersion", "2025-03-26")
+        if protocol_version not in SUPPORTED_VERSIONS:
+            # Never acknowledge a version we do not support: counter-propose ours
+            protocol_version = CURRENT_VERSION
 
         # Create session
         new_session_id = self.session_manager.create_session(
